@@ -78,3 +78,47 @@ Theorem C14_linearizable_partial : forall reqauth h o,
   lin_check reqauth h = Some o -> linearization reqauth h o.
 Proof. exact lin_check_sound. Qed.
 Print Assumptions C14_linearizable_partial.
+
+(* the strong form of "every operation returns provided the file system's calls return": from EVERY
+   reachable state there is a continuation of the schedule after which every operation has returned
+   (no deadlock, and nothing an earlier interleaving did can make a return impossible) ... *)
+Theorem C14_completion : forall reqauth ops sched,
+  exists sched', all_done (run sched' (run sched (init reqauth ops))).
+Proof. exact completion. Qed.
+Print Assumptions C14_completion.
+
+(* ... and no schedule, however unfair, takes more than 2*16+1 effective steps per operation: an operation
+   that keeps being scheduled while it can move returns *)
+Theorem C14_bounded_work : forall reqauth ops sched,
+  (effective sched (init reqauth ops) <= (2 * DEPTH + 1) * length ops)%nat.
+Proof. intros. apply effective_bound, total_init. Qed.
+Print Assumptions C14_bounded_work.
+
+(* ---- non-vacuity: the predicates reject the two defects this property was written about, the
+   hypotheses of mutex/progress are satisfiable, the checker accepts and rejects ---- *)
+
+(* D8 (Attach before fix 6e19728): a return with the afid still locked is not balanced *)
+Example C14_D8_is_rejected : ~ balanced (prog_attach_D8 1) [].
+Proof. exact D8_unbalanced. Qed.
+
+(* D9 (Create before fix e096cda): taking a lock while holding one violates the discipline *)
+Example C14_D9_is_rejected : ~ wf (prog_create_D9 0) [].
+Proof. exact D9_hold_and_wait. Qed.
+
+(* a reachable state with a returned operation, one inside Dirent.Stat on SFid 1 holding its mutex, and one
+   waiting for that mutex (so C14_mutex, C14_progress, C14_no_lock_after_return speak about something) *)
+Example C14_reachable_contended :
+  (exists th, threads ex_state !! 0%nat = Some th /\ is_done th = true) /\
+  (exists th, threads ex_state !! 1%nat = Some th /\ in_call_on th = Some (Some 1%N)) /\
+  (exists th, threads ex_state !! 2%nat = Some th /\ waits_for_lock th = Some 1%N /\ is_done th = false) /\
+  owner ex_state !! 1%N = Some 1%nat.
+Proof. exact ex_state_shape. Qed.
+
+(* the checker answers Some on an overlapping history observed on the implementation ... *)
+Example C14_lin_check_accepts : lin_check false ex_hist = Some [0; 1; 2]%nat.
+Proof. exact ex_lin_accepts. Qed.
+
+(* ... and None on the history the pre-fix delRef produced (remove(2) = ok, without a call, while
+   attach(2) fails) *)
+Example C14_lin_check_rejects : lin_check false ex_hist_bad = None.
+Proof. exact ex_lin_rejects. Qed.
